@@ -74,12 +74,16 @@ def make_case(rng, i):
         lines["net.ucl"] = ["H,HE+,NAN,HE,H+,NAN,NAN,1.2e-15,0.25,0.0,10,41000", "MG,H+,NAN,MG+,H,NAN,NAN,1.1e-9,0.0,0.0,10,41000", "SIO,HE+,NAN,SI+,O,HE,NAN,8.6e-10,-0.5,0.0,10,41000",
                             "H2,CRP,NAN,H,H,NAN,NAN,1.3e-18,0.0,0.0,10,41000", "HCL,E-,NAN,H,CL,NAN,NAN,3.0e-7,-0.5,0.0,10,41000", "H,H,NAN,H2,NAN,NAN,NAN,1e-17,0.5,0.0,10,41000",
                             "CO,FREEZE,NAN,#CO,NAN,NAN,NAN,1.0,0.0,0.0,0,0", "#CO,DESCR,NAN,CO,NAN,NAN,NAN,1.0,0.0,0.0,0,0", "#CO,DEUVCR,NAN,CO,NAN,NAN,NAN,1.0,0.0,0.0,0,0",
-                            "C,O,NAN,CO,NAN,NAN,NAN,1e-17,0.0,0.0,10,41000"]
+                            "C,O,NAN,CO,NAN,NAN,NAN,1e-17,0.0,0.0,10,41000",
+                            "SIO,FREEZE,NAN,#SIO,NAN,NAN,NAN,1.0,0.0,0.0,0,0", "#SIO,DESCR,NAN,SIO,NAN,NAN,NAN,1.0,0.0,0.0,0,0", "#SIO,DEUVCR,NAN,SIO,NAN,NAN,NAN,1.0,0.0,0.0,0,0",
+                            "MG,FREEZE,NAN,#MG,NAN,NAN,NAN,1.0,0.0,0.0,0,0", "#MG,DEUVCR,NAN,MG,NAN,NAN,NAN,1.0,0.0,0.0,0,0"]
         d.update(files=["net.ucl"], formats=["uclchem"], elements=list(UPPER_EL), pseudo_elements=list(UPPER_PS), replacement=dict(UPPER_RP), grain_model=rng.choice(["rr07", "rr07x"]))
+        # ice species whose names contain replaced element symbols (#SIO -> #SiO, #MG -> #Mg): table keys go through the replacement too
+        d["binding"] = {"#SIO": rng.choice([3500.0, 4321.0]), "#MG": rng.choice([5300.0, 4321.0])}
         if rng.random() < 0.6:
-            d["binding"] = {"#CO": rng.choice([1150.0, 1300.5, 855.0])}
-        if rng.random() < 0.6:
-            d["yield"] = {"#CO": rng.choice([0.1, 2.7e-3])}
+            d["binding"]["#CO"] = rng.choice([1150.0, 1300.5, 855.0])
+        if rng.random() < 0.7:
+            d["yield"] = {"#CO": rng.choice([0.1, 2.7e-3]), "#MG": rng.choice([3.0e-3, 0.25])}
         if rng.random() < 0.5:
             d["shielding"] = {"CO": "VB88Table"}
     elif style == "leeds_grain":
